@@ -1045,6 +1045,9 @@ func runC08(args []string) error {
 			if p.N > 8 && p.K > 12 {
 				p.K = 12
 			}
+			if m := c08Ops[sub].KMul; m > 1 {
+				p.K *= m
+			}
 			addJob(p, gmps[(c/2)%len(gmps)], yields[c%len(yields)], true)
 			addJob(p, gmps[r.intn(len(gmps))], yields[r.intn(len(yields))], false)
 		}
